@@ -983,6 +983,87 @@ fn copied_components_leg(ctx: &mut Ctx, tier: Tier, seed: u64) {
     }
 }
 
+
+// ---------------------------------------------------------------------------------------
+// Value ranges with open ends (X.680 51.4.2): `lo<..hi`, `lo..<hi`, `lo<..<hi` with literal
+// ends denote the closed range without the end itself; the reference is that closed range
+// written out. (Open ends next to a *referenced* end point are not generated: the lexer
+// cannot move an end it does not know, and the IR has no place for the `<`.)
+
+fn open_ends_text(lo: i128, hi: i128) -> String {
+    let mut s = String::from("Open-Mod DEFINITIONS AUTOMATIC TAGS ::= BEGIN\n");
+    let forms: [(&str, String, String); 3] = [
+        ("Hi", format!("{lo}..<{hi}"), format!("{lo}..{}", hi - 1)),
+        ("Lo", format!("{lo}<..{hi}"), format!("{}..{hi}", lo + 1)),
+        ("Both", format!("{lo} < .. < {hi}"), format!("{}..{}", lo + 1, hi - 1)),
+    ];
+    for (n, open, closed) in &forms {
+        s.push_str(&format!("Open-{n} ::= INTEGER ({open})\nClosed-{n} ::= INTEGER ({closed})\n"));
+        s.push_str(&format!("Open-{n}-Ext ::= INTEGER ({open}, ...)\nClosed-{n}-Ext ::= INTEGER ({closed}, ...)\n"));
+        s.push_str(&format!("Open-{n}-Comp ::= SEQUENCE {{ f INTEGER ({open}), g SEQUENCE OF INTEGER ({open}) }}\nClosed-{n}-Comp ::= SEQUENCE {{ f INTEGER ({closed}), g SEQUENCE OF INTEGER ({closed}) }}\n"));
+        s.push_str(&format!("Open-{n}-Union ::= INTEGER ({open} | 100000)\nClosed-{n}-Union ::= INTEGER ({closed} | 100000)\n"));
+        if lo >= 0 {
+            s.push_str(&format!("Open-{n}-Size ::= OCTET STRING (SIZE ({open}))\nClosed-{n}-Size ::= OCTET STRING (SIZE ({closed}))\n"));
+            s.push_str(&format!("Open-{n}-Of ::= SEQUENCE (SIZE ({open})) OF BOOLEAN\nClosed-{n}-Of ::= SEQUENCE (SIZE ({closed})) OF BOOLEAN\n"));
+        }
+    }
+    s.push_str("END\n");
+    s
+}
+
+fn open_ends_eval(text: &str) -> Result<Option<String>, String> {
+    let out = match comp::compile_rasn1(text, &Cfg::default()) {
+        Outcome::Ok(o) if o.warnings.is_empty() => o,
+        Outcome::Ok(o) => return Err(format!("warnings: {}", o.warnings[0])),
+        Outcome::Err(e) => return Err(e),
+        Outcome::Panic(p) => return Err(format!("panic: {p}")),
+    };
+    let mods = crate::proj::project(&out.generated)?;
+    let m = mods.first().ok_or("no module")?;
+    let mut n = 0;
+    for it in &m.items {
+        let crate::proj::RItem::Struct(o) = it else { continue };
+        let Some(rest) = o.name.strip_prefix("Open") else { continue };
+        let Some(c) = m.find_struct(&format!("Closed{rest}")) else { continue };
+        n += 1;
+        let sig = |s: &crate::proj::RStruct| format!("{:?} {:?} [{}]", s.attrs.value, s.attrs.size, s.fields.iter().map(|f| format!("{}: {:?} {:?} {}", f.name, f.attrs.value, f.attrs.size, if f.ty.contains("Open") || f.ty.contains("Closed") { "" } else { f.ty.as_str() })).collect::<Vec<_>>().join(", "));
+        if sig(o) != sig(c) {
+            return Ok(Some(format!("{}: {} - the closed range written out ({}): {}", o.name, sig(o), c.name, sig(c))));
+        }
+    }
+    if n < 12 {
+        return Err(format!("only {n} pairs generated"));
+    }
+    Ok(None)
+}
+
+fn open_ends_leg(ctx: &mut Ctx) {
+    let ends: [i128; 9] = [-70000, -129, -1, 0, 1, 5, 255, 256, 65536];
+    let mut reported = 0;
+    for (i, &lo) in ends.iter().enumerate() {
+        for &hi in ends.iter().skip(i + 1) {
+            if hi - lo < 3 {
+                continue;
+            }
+            let text = open_ends_text(lo, hi);
+            match open_ends_eval(&text) {
+                Err(e) => ctx.class(&format!("open-ends:skipped ({})", e.chars().take(40).collect::<String>())),
+                Ok(res) => {
+                    ctx.case(&format!("open:{lo}:{hi}"), true);
+                    ctx.class("leg:open-range-ends against the closed range written out");
+                    if let Some(d) = res {
+                        ctx.class("fails:open-ends");
+                        if reported < 2 {
+                            reported += 1;
+                            ctx.fail(Failure { finding: None, what: format!("a range with an open end is not the closed range without that end: {d}"), replay: json!({"kind": "c04-open-ends", "sources": [{"name": "open.asn", "text": text}], "observed": d}) });
+                        }
+                    }
+                }
+            }
+        }
+    }
+}
+
 pub fn run(tier: Tier, seed: u64, replay: Option<String>) -> i32 {
     let mut ctx = Ctx::new("C04", tier, seed);
     ctx.rule = "exhaustive: element sets with 1..2 operands (quick; thorough: 1..3) from single values and ranges over {MIN,-1,0,1,5,300,MAX} \
@@ -998,6 +1079,19 @@ pub fn run(tier: Tier, seed: u64, replay: Option<String>) -> i32 {
     ];
     if let Some(path) = replay {
         let v: Value = serde_json::from_str(&std::fs::read_to_string(&path).expect("replay")).expect("json");
+        if v["kind"] == "c04-open-ends" {
+            let text = v["sources"][0]["text"].as_str().unwrap_or_default().to_string();
+            match open_ends_eval(&text) {
+                Err(e) => ctx.inconclusive.push(e),
+                Ok(res) => {
+                    ctx.case(&text, true);
+                    if let Some(d) = res {
+                        ctx.fail(Failure { finding: None, what: format!("a range with an open end is not the closed range without that end: {d}"), replay: v.clone() });
+                    }
+                }
+            }
+            return ctx.finish();
+        }
         if v["kind"] == "c04-copied" {
             let text = v["sources"][0]["text"].as_str().unwrap_or_default().to_string();
             let nm: Vec<String> = v["names"].as_array().map(|a| a.iter().map(|x| x.as_str().unwrap_or_default().to_string()).collect()).unwrap_or_default();
@@ -1022,6 +1116,17 @@ pub fn run(tier: Tier, seed: u64, replay: Option<String>) -> i32 {
     let mut stats: std::collections::BTreeMap<String, (u64, Vec<String>)> = std::collections::BTreeMap::new();
     let mut replays = vec![];
     for (_p, v) in crate::ev::replay_files("C04") {
+        if v["kind"] == "c04-open-ends" {
+            let text = v["sources"][0]["text"].as_str().unwrap_or_default().to_string();
+            if let Ok(res) = open_ends_eval(&text) {
+                ctx.case(&text, true);
+                ctx.class("replay:open-ends");
+                if let Some(d) = res {
+                    ctx.fail(Failure { finding: None, what: format!("a range with an open end is not the closed range without that end: {d}"), replay: v.clone() });
+                }
+            }
+            continue;
+        }
         if let Some(c) = case_from(&v) {
             replays.push(c);
         }
@@ -1130,6 +1235,7 @@ pub fn run(tier: Tier, seed: u64, replay: Option<String>) -> i32 {
     }
     ctx.extra.insert("failure_signatures".into(), json!(stats.len()));
     copied_components_leg(&mut ctx, tier, seed);
+    open_ends_leg(&mut ctx);
     ctx.finish()
 }
 
